@@ -56,11 +56,22 @@ func runStoreForward(c *sim.RunCtx, o *storeRunOpts) *storeWorld {
 	var w *storeWorld
 	c.Sim(sim.SimOpts{MaxSteps: 400000, DeadlockClass: "deadlock"}, func(s *rt.Sched) {
 		m := newMedia(cfg)
-		e := buildStoreParts(c, s, cfg, m, 1, seed)
+		var e *storeEnv
+		if cfg.WConfig {
+			e = buildStoreConfig(c, s, cfg, m, 1, seed)
+			c.Count("probe_wconfig_run", 1)
+		} else {
+			e = buildStoreParts(c, s, cfg, m, 1, seed)
+		}
 		defer e.close()
 		w = &storeWorld{c: c, s: s, cfg: cfg, e: e, ctx: context.Background(), insts: o.wo.Insts,
 			m: &storeModel{cfg: cfg, objs: objs, byTag: map[int]*upload{}}}
-		w.allocs = func() int { return e.alloc.Allocs }
+		w.allocs = func() int {
+			if e.alloc == nil {
+				return 0 // (W-config: allocation counts are not needed by this property's oracles)
+			}
+			return e.alloc.Allocs
+		}
 		if o.setup != nil {
 			o.setup(w)
 		}
@@ -136,6 +147,15 @@ func c01Profile(variant string) func(c *sim.RunCtx) {
 			}
 		}
 		cfg.ValCache = cfg.Disk && t.Chance(1, 3)
+		if wconfigPossible(cfg) && t.Chance(1, 3) {
+			cfg.WConfig = true
+			if !cfg.Hier {
+				cfg.KeyFormat = digest.KeyWithoutInstance
+			}
+			if cfg.Disk && cfg.BlockCount() == 0 {
+				cfg.Spare = 1
+			}
+		}
 		wo := &workloadOpts{
 			Objects:      4 + t.Choose(12),
 			Clients:      1 + t.Choose(4),
